@@ -31,7 +31,8 @@ def dispatch_case(registry_kind: str = 'std'):
     def for_kind(kind: str):
         reg = stdreg.std_registry(kind)
         return st.builds(
-            lambda text, beh, mbs, codec: {'dispatcher': kind, 'max_batch_size': batch_limit(text, mbs), 'behaviours': beh, 'text': text, 'codec': codec},
+            lambda text, beh, mbs, codec: {'dispatcher': kind, 'max_batch_size': batch_limit(text, mbs), 'behaviours': beh, 'text': text, 'codec': codec,
+                                           'logging': 'debug' if (len(beh) + (mbs is None)) % 3 == 0 else 'off'},
             docs.document(reg), stdreg.behaviours(True), st.sampled_from(BATCH_LIMITS), st.sampled_from(CODEC_CHOICES),
         )
     return st.one_of(for_kind('sync'), for_kind('async'))
@@ -48,6 +49,8 @@ def doc_classes(spec: Any, exp: ref.Expectation) -> list:
         classes.append('max_batch_size/set')
     if spec.get('codec', 'default') != 'default':
         classes.append(f"codec/{spec['codec']}")
+    if spec.get('logging') == 'debug':
+        classes.append('logging/debug')
     for el in exp.elements:
         classes.append(el.klass)
     return classes
@@ -65,7 +68,7 @@ class C01(Check):
         "jsonrpc/id/method/params, non-object elements, duplicate ids), arbitrary JSON values, containers nested 8..62 levels, integer "
         "literals of 4300/4301/10000 digits spliced at id/params/nested/jsonrpc/method, float literals beyond the double range (1e400) at id/jsonrpc/method, mangled texts (truncation, stray bytes, single "
         "quotes, trailing commas, BOM, unbalanced brackets) and raw non-JSON strings x sync/async dispatcher x max_batch_size "
-        "{unset,0,1,2,3,4,6} x JSON codec configured on the dispatcher {library default, application encoder / decoder classes, application loader / dumper functions: floats parsed as Decimal and written as tagged strings} x method behaviours (return any JSON value, raise protocol error, raise 12 exception types). Oracle: "
+        "{unset,0,1,2,3,4,6} x JSON codec configured on the dispatcher {library default, application encoder / decoder classes, application loader / dumper functions: floats parsed as Decimal and written as tagged strings} x library logging disabled / at DEBUG with every record formatted x method behaviours (return any JSON value, raise protocol error, raise 30 exception types incl. one that cannot be printed). Oracle: "
         "dispatch never raises; returns None or (str, tuple); the text parses and satisfies the independent response-document validator "
         "(non-empty array, jsonrpc '2.0', id string/number/null, exactly one of result/error, integer code + string message); codes agree "
         "with the document. non-trivial = the text is not valid JSON (and not empty) or parses to an object/array; distinct = distinct spec."
@@ -81,7 +84,7 @@ class C01(Check):
         'doc/batch-accepted', 'doc/batch-accepted/all-notifications', 'doc/batch-rejected/empty', 'doc/batch-rejected/invalid-element',
         'doc/batch-rejected/duplicate-ids', 'doc/batch-rejected/too-large', 'huge-literal', 'depth>=32',
         'call/raises-exception', 'call/raises-protocol-error', 'notification/raises-exception', 'dispatcher/sync', 'dispatcher/async',
-        'codec/classes', 'codec/functions',
+        'codec/classes', 'codec/functions', 'logging/debug',
     ]
 
     def strategy(self, tier: str):
